@@ -7,7 +7,7 @@ export GOFLAGS=-mod=mod GOPROXY=off GOSUMDB=off GOTOOLCHAIN=local
 cd "$WT" || exit 2
 git checkout -q -- . ; rm -f "$PKG"/zz_seed_demo_test.go
 verdicts() { # per-test verdicts of existing tests (each test in own process is too slow; use -json)
-  timeout 900 go test -vet=off -count=1 -json -skip 'TestQuery' ./"$PKG"/ 2>/dev/null | python3 -c "
+  timeout 900 go test -vet=off -count=1 -json -skip 'TestQuery|TestDefiDemo|TestAuth' ./"$PKG"/ 2>/dev/null | python3 -c "
 import sys,json
 r={}
 for l in sys.stdin:
